@@ -491,6 +491,7 @@ pub fn check(prop: &str, tier_s: &str) -> i32 {
         );
         exit = if exit == 2 { 2 } else { 1 };
     }
+    let _ = std::fs::remove_dir_all(scratch_base());
     write_evidence(prop, tier_s, seed, &b, n_viol, n_known);
     report_probes(prop, &b.stats);
     println!(
